@@ -99,7 +99,10 @@ static const byte *crc_stream_place(const byte *src, size_t n)
   return h_crc_data;
 }
 #define SCAN_LOOP_CONTRACT \
-  __CPROVER_assigns(i, i_cooked, shifter, got) \
+  __CPROVER_assigns(i, i_cooked, shifter, got, g_scan_q) \
+  __CPROVER_loop_invariant((g_q >= start && g_q < i_cooked) ==> \
+     (g_scan_q.got == SCAN_GOT_AT(start, g_q) && !((mask & g_scan_q.got) == mask && (mask & g_scan_q.win) == needle) && \
+      ((g_p >= start && g_p <= g_q && g_q - g_p < 64 && CELL_IN(self, g_q)) ==> ((((g_scan_q.win >> ((g_q - g_p) & 63)) & 1) != 0) == CELL(self, g_p))))) \
   __CPROVER_loop_invariant(i_cooked >= start && i_cooked <= start + self->raw_bit_size_ && i == i_cooked * self->stride_ + self->first_) \
   __CPROVER_loop_invariant(got == ((i_cooked - start >= 64) ? 0xFFFFFFFFFFFFFFFFull : ((1ull << ((i_cooked - start) & 63)) - 1ull))) \
   __CPROVER_loop_invariant((g_p >= start && g_p < i_cooked && i_cooked - 1 - g_p < 64 && g_p * self->stride_ + self->first_ < self->raw_bit_size_) ==> \
@@ -147,7 +150,7 @@ __CPROVER_assigns() __CPROVER_ensures(__CPROVER_return_value == 0xFFFFul);     /
      ((((h_vec_store[__CPROVER_loop_entry(out->n) + g_m] >> (7 - g_bit)) & 1) != 0) == CELL(bits, __CPROVER_loop_entry(thisbit) + 16 * g_m + 2 * g_bit + 1) && \
       CELL(bits, __CPROVER_loop_entry(thisbit) + 16 * g_m + 2 * g_bit)))
 #define FM_FIND_LOOP_CONTRACT \
-  __CPROVER_assigns(thisbit) \
+  __CPROVER_assigns(thisbit, g_scan_q) \
   __CPROVER_loop_invariant(thisbit >= __CPROVER_loop_entry(thisbit) && (thisbit == __CPROVER_loop_entry(thisbit) || thisbit <= 8 * TRACK_BYTES))
 #include "fm_read_byte.inc"
 #include "copy_fm_bytes.inc"
@@ -192,7 +195,7 @@ void h_fm_find(void)
   VERIF_COVER(r.has && r.val == 0xF56F, "data mark found");
   VERIF_COVER(!r.has, "no mark");
 }
-void h_scan_for(void) { struct BitStream *b; g_p = nondet_size_t(); BitStream_scan_for(b, nondet_size_t(), nondet_ulong(), nondet_ulong()); }
+void h_scan_for(void) { struct BitStream *b; g_p = nondet_size_t(); g_q = nondet_size_t(); BitStream_scan_for(b, nondet_size_t(), nondet_ulong(), nondet_ulong()); }
 void h_crc_get(void) { struct CRC16Base *c; CRC16Base_get(c); }
 void h_crc_init(void) { CCITT_CRC16_init(); }
 void h_copy_mfm(void)
@@ -332,7 +335,7 @@ static void mon_push_sector(const struct DecSector *s)
   MD.pushed = MD.pushed + 1;
 }
 #define MFM_DECODE_LOOP_CONTRACT \
-  __CPROVER_assigns(thisbit, state, sec, sec_size, MD, g_diag, __CPROVER_object_whole(h_crc_data), __CPROVER_object_whole(h_inner)) \
+  __CPROVER_assigns(thisbit, state, sec, sec_size, MD, g_diag, g_scan_q, __CPROVER_object_whole(h_crc_data), __CPROVER_object_whole(h_inner)) \
   __CPROVER_loop_invariant(thisbit <= (1ul << 18) && MD.syncs <= thisbit && 2 * MD.pushed + (state == LookingForRecord ? 1 : 0) <= MD.syncs) \
   __CPROVER_loop_invariant(state == LookingForSectorHeader || state == LookingForRecord) \
   __CPROVER_loop_invariant(state == LookingForRecord ==> \
@@ -344,7 +347,7 @@ static void mon_push_sector(const struct DecSector *s)
 static void decode_mfm_track(const struct BitStream *bits)
 __CPROVER_requires(BS_OK(bits) && bits->first_ <= bits->raw_bit_size_)
 __CPROVER_requires(MD.syncs == 0 && MD.pushed == 0 && !MD.hdr_open && !MD.crc_ok)
-__CPROVER_assigns(MD, g_diag, __CPROVER_object_whole(h_crc_data), __CPROVER_object_whole(h_inner))
+__CPROVER_assigns(MD, g_diag, g_scan_q, __CPROVER_object_whole(h_crc_data), __CPROVER_object_whole(h_inner))
 /* every yielded sector satisfied the monitor (assertions in mon_push_sector); and a sector needs two marks of its own */
 __CPROVER_ensures(2 * MD.pushed <= MD.syncs);
 
@@ -376,8 +379,13 @@ static struct
   const struct decvec *copy_vec; size_t copy_from, copy_n; _Bool copy_ok; unsigned long copy_epoch;
   /* the inline CRC object: segments fed since its construction, and the result read from it */
   unsigned c_nseg; size_t c_s0_len; byte c_s0_val; const byte *c_s1_ptr; size_t c_s1_len; unsigned long c_s1_epoch; const struct decvec *c_s1_owner; _Bool c_zero;
+  /* the last search for an ID address mark (pattern AAAAAAAAF57E): where it started and what it found */
+  size_t idscan_start; _Bool idscan_has; size_t idscan_first;
+  /* the last search for a data mark: where it started and where the mark found ends */
+  size_t rec_search_start, rec_mark_end;
   unsigned long ids, pushed;
 } MF;
+#define FM_ID_MARK_PATTERN 0xAAAAAAAAF57Eull
 static void fmsector_init(struct FmSector *s) { s->data.n = 0; s->data.sync = 0; }
 static void decvec_init(struct decvec *v) { v->n = 0; v->sync = 0; }
 static void decvec_push_v(struct decvec *v, byte val) { MF.epoch = MF.epoch + 1; MF.owner = v; decvec_push(v, val); }
@@ -389,9 +397,19 @@ static void decvec_resize(struct decvec *v, size_t k)            /* resize: grow
 }
 static void decvec_clear(struct decvec *v) { v->n = 0; }
 static struct opt_scan BitStream_scan_for_v(const struct BitStream *bits, size_t start, uint64_t val, uint64_t mask)
-{ return BitStream_scan_for(bits, start, val, mask); }
+{
+  struct opt_scan r = BitStream_scan_for(bits, start, val, mask);
+  if (val == FM_ID_MARK_PATTERN && mask == 0xFFFFFFFFFFFFull) { MF.idscan_start = start; MF.idscan_has = r.has; MF.idscan_first = r.first; }
+  return r;
+}
 static struct opt_uint fm_find_record_address_mark_v(size_t *thisbit, const struct BitStream *bits, size_t bits_avail)
-{ return fm_find_record_address_mark(thisbit, bits, bits_avail); }
+{
+  struct opt_uint r;
+  MF.rec_search_start = *thisbit;
+  r = fm_find_record_address_mark(thisbit, bits, bits_avail);
+  MF.rec_mark_end = *thisbit;
+  return r;
+}
 static bool copy_fm_bytes_v(const struct BitStream *bits, size_t *thisbit, size_t n, struct decvec *out)
 {
   bool r;
@@ -444,11 +462,15 @@ static void mon_push_sector_fm(const struct FmSector *s)
                    MF.c_s1_ptr == h_vec_store && MF.c_s1_len == (size_t)MF.hdr_size + 2 && MF.c_s1_epoch == MF.epoch && MF.c_s1_owner == &s->data,
                    "C06: the data field of a yielded sector passed the CRC check (mark FB, data, CRC bytes; result 0)");
   __CPROVER_assert(s->data.n == (size_t)MF.hdr_size, "C06: the yielded data is exactly the sector, without the CRC bytes");
+  /* with scan_for's first-match postcondition: a search for an ID mark from where the search for the data mark started
+     found none that ends before the data mark does */
+  __CPROVER_assert(MF.idscan_start == MF.rec_search_start && (!MF.idscan_has || MF.idscan_first >= MF.rec_mark_end),
+                   "C06: no ID address mark lies between the ID field and the data mark used (the data field belongs to this ID field, not to a later sector)");
   MF.hdr_open = 0;
   MF.pushed = MF.pushed + 1;
 }
 #define FM_DECODE_LOOP_CONTRACT \
-  __CPROVER_assigns(thisbit, state, sec, sec_size, MF, g_diag, __CPROVER_object_whole(h_crc_data), __CPROVER_object_whole(h_inner)) \
+  __CPROVER_assigns(thisbit, state, sec, sec_size, MF, g_diag, g_scan_q, __CPROVER_object_whole(h_crc_data), __CPROVER_object_whole(h_inner)) \
   __CPROVER_loop_invariant(thisbit <= 8 * TRACK_BYTES + 16 * 1032 && sec.data.n <= DECVEC_CAP && MF.ids <= thisbit && MF.pushed <= MF.ids && MF.pushed + (MF.hdr_open ? 1 : 0) <= MF.ids) \
   __CPROVER_loop_invariant(state == LookingForAddress || state == LookingForRecord) \
   __CPROVER_loop_invariant(state == LookingForRecord ==> \
@@ -460,7 +482,7 @@ static void mon_push_sector_fm(const struct FmSector *s)
 static void decode_fm_track(const struct BitStream *bits)
 __CPROVER_requires(BS_OK(bits) && bits->first_ <= bits->raw_bit_size_)
 __CPROVER_requires(MF.ids == 0 && MF.pushed == 0 && !MF.hdr_open && !MF.crc_zero && !MF.copy_ok && MF.epoch == 0)
-__CPROVER_assigns(MF, g_diag, __CPROVER_object_whole(h_crc_data), __CPROVER_object_whole(h_inner))
+__CPROVER_assigns(MF, g_diag, g_scan_q, __CPROVER_object_whole(h_crc_data), __CPROVER_object_whole(h_inner))
 /* every yielded sector satisfied the monitor (assertions in mon_push_sector_fm); each needs an ID field of its own */
 __CPROVER_ensures(MF.pushed <= MF.ids);
 
